@@ -51,6 +51,10 @@ extern "C" {
   UT S2U_i##W(ST v) { return ConvertSignedIntToSymbol<ST>(v); } \
   ST U2S_u##W(UT v) { return ConvertSymbolToSignedInt<UT>(v); }
 ZZ(8, int8_t, uint8_t) ZZ(16, int16_t, uint16_t) ZZ(32, int32_t, uint32_t) ZZ(64, int64_t, uint64_t)
+int MostSignificantBit(uint32_t n) { return draco::MostSignificantBit(n); }
+int CountOneBits32(uint32_t n) { return draco::CountOneBits32(n); }
+uint32_t ReverseBits32(uint32_t n) { return draco::ReverseBits32(n); }
+void CopyBits32(uint32_t *d, int a, uint32_t s, int b, int k) { draco::CopyBits32(d, a, s, b, k); }
 void ConvertSignedIntsToSymbols(const int32_t *in, int n, uint32_t *out) { draco::ConvertSignedIntsToSymbols(in, n, out); }
 void ConvertSymbolsToSignedInts(const uint32_t *in, int n, int32_t *out) { draco::ConvertSymbolsToSignedInts(in, n, out); }
 
